@@ -117,6 +117,21 @@ func (w *c18World) initial(op, state string, seed int64) *envfs.FS {
 			}
 			dmg(scen.Dmg{Op: "del", F: 0})
 		}
+	case "volnamed":
+		// the index file's own name looks like a recovery file's (s.vol00+02.par2); its recovery files carry that whole
+		// name as their base. Nothing may treat a failed read of any derived or probed name as absence.
+		if w.fmtName == "p2" {
+			base := strings.TrimSuffix(w.index, ".par2")
+			nbase := base + ".vol00+02"
+			for _, p := range fs.Paths() {
+				if strings.HasPrefix(p, base+".") && strings.HasSuffix(p, ".par2") {
+					b, _ := fs.Get(p)
+					fs.Del(p)
+					fs.Put(nbase+strings.TrimPrefix(p, base), b)
+				}
+			}
+			dmg(scen.Dmg{Op: "del", F: 0})
+		}
 	case "two":
 		// two files need rewriting and capacity suffices: one deleted, one shifted (PAR1: two deleted, 2 volumes)
 		if w.fmtName == "p2" {
@@ -198,15 +213,21 @@ func (w *c18World) run(fs *envfs.FS, op string, order int, fi, kind int) c18Resu
 			return &envfs.Fault{Err: envfs.ErrInjected, Partial: c, Kind: fmt.Sprintf("torn@%d", c)}
 		}
 	}
+	index := w.index
+	if alt := strings.TrimSuffix(w.index, ".par2") + ".vol00+02.par2"; w.fmtName == "p2" {
+		if _, ok := fs.Files[alt]; ok {
+			index = alt
+		}
+	}
 	res.pi = core.Catch(func() {
 		switch {
 		case w.fmtName == "p2" && op == "create":
 			res.err = par2.VerifCreate(fs, w.index, w.paths, par2.CreateOptions{SliceByteCount: c18P2Cfgs[w.world].Slice, NumParityShards: c18P2Cfgs[w.world].Blocks, NumGoroutines: 1})
 		case w.fmtName == "p2" && op == "verify":
-			r, e := par2.VerifVerify(fs, w.index, par2.VerifyOptions{NumGoroutines: 1})
+			r, e := par2.VerifVerify(fs, index, par2.VerifyOptions{NumGoroutines: 1})
 			res.err, res.counts = e, fmt.Sprintf("%+v", r)
 		case w.fmtName == "p2":
-			r, e := par2.VerifRepair(fs, w.index, par2.RepairOptions{NumGoroutines: 1, DoubleCheck: op == "repairdc"})
+			r, e := par2.VerifRepair(fs, index, par2.RepairOptions{NumGoroutines: 1, DoubleCheck: op == "repairdc"})
 			res.err, res.paths = e, r.RepairedPaths
 		case op == "create":
 			res.err = par1.VerifCreate(fs, w.index, w.paths, par1.CreateOptions{NumParityFiles: c18P1Cfgs[w.world].Volumes})
@@ -236,7 +257,7 @@ func (w *c18World) withinCapacity(fs *envfs.FS) bool {
 }
 
 func c18Gen(g *core.Gen) {
-	states := []string{"intact", "missing", "changed", "shifted", "beyond", "volmissing", "two", "lookalike"}
+	states := []string{"intact", "missing", "changed", "shifted", "beyond", "volmissing", "two", "lookalike", "volnamed"}
 	worlds := []int{0}
 	if g.Thorough() {
 		worlds = []int{0, 1}
@@ -249,7 +270,7 @@ func c18Gen(g *core.Gen) {
 					if op == "create" && st != "intact" && st != "changed" {
 						continue
 					}
-					if st == "lookalike" && f == "p1" {
+					if (st == "lookalike" || st == "volnamed") && f == "p1" {
 						continue // PAR1 volumes are found by their fixed names
 					}
 					norders := 3
@@ -459,7 +480,7 @@ func init() {
 	core.Register(&core.Prop{
 		ID:    "C18",
 		Level: "fault_enumeration",
-		Rule: "environment enumeration on the owned filesystem: {Create, Verify, Repair, Repair+double-check} x {PAR1, PAR2} x archive state {intact, one file missing, one changed, one shifted, beyond capacity, volume missing + damage, two damaged, recovery data under look-alike names (a renamed volume whose blocks are needed + another set's index)} x listing order {sorted, reversed, rotated}; thorough adds a larger world (3 files, 7 blocks in 3 recovery files; PAR1 4 files, 3 volumes) with all 6 listing orders; a fault at EACH I/O call index of the never-faulted run, of each kind (error without effect; for writes additionally torn at byte 0, 1, middle, len-1 and packet/field boundaries), and for each such fault EVERY second fault in the re-run (pairs), followed by a fault-free re-run. " +
+		Rule: "environment enumeration on the owned filesystem: {Create, Verify, Repair, Repair+double-check} x {PAR1, PAR2} x archive state {intact, one file missing, one changed, one shifted, beyond capacity, volume missing + damage, two damaged, recovery data under look-alike names (a renamed volume whose blocks are needed + another set's index), an index file whose own name looks like a recovery file's} x listing order {sorted, reversed, rotated}; thorough adds a larger world (3 files, 7 blocks in 3 recovery files; PAR1 4 files, 3 volumes) with all 6 listing orders; a fault at EACH I/O call index of the never-faulted run, of each kind (error without effect; for writes additionally torn at byte 0, 1, middle, len-1 and packet/field boundaries), and for each such fault EVERY second fault in the re-run (pairs), followed by a fault-free re-run. " +
 			"Oracle: a reached fault => non-nil error; a path whose write failed is not reported repaired; only write targets change; the fault-free re-run succeeds exactly like the never-faulted run and ends in the same directory whenever the reference says the (possibly torn) directory is still within capacity. non-trivial = the injected fault was reached",
 		Assumptions: []string{"faults are injected at the fileIO seam (the only I/O gopar performs)", "a torn write leaves a prefix of the data in the target file"},
 		NewCase:     func() interface{} { return &c18Case{} },
